@@ -128,7 +128,8 @@ def real_case(case):
             f.write(data)
         f = open(p, "rb") if case["bytes"] else open(p, "r", encoding="utf-8", newline="")
         try:
-            res = Context(Config()).run(case["cmd"], in_stream=f, hide=True, encoding="utf-8", timeout=20, echo_stdin=False)
+            # input is forwarded one character per input_sleep (10 ms): give long texts the time they need
+            res = Context(Config()).run(case["cmd"], in_stream=f, hide=True, encoding="utf-8", timeout=20 + 0.05 * len(data), echo_stdin=False)
         except CommandTimedOut:
             return "a command reading to EOF did not terminate (no EOF delivered)"
         finally:
@@ -277,7 +278,7 @@ def run(ctx):
         extra.append({"kind": "stream", "text": t, "bytes": True, "enc": "latin-1", "echo": False})
         extra.append({"kind": "stream", "text": t, "bytes": True, "enc": "utf-16-le", "echo": False})
     extra.append({"kind": "disabled"})
-    for t in (["", "hello\n", "é€😀\n" * 3] if not ctx.thorough else ["", "hello\n", "é€😀\n" * 3, "x" * 5000, "é" * 700]):
+    for t in (["", "hello\n", "é€😀\n" * 3] if not ctx.thorough else ["", "hello\n", "é€😀\n" * 3, "x" * 1500, "é" * 700]):
         for b in (False, True):
             for cmd in ("cat", "wc -c"):
                 extra.append({"kind": "real", "text": t, "bytes": b, "cmd": cmd})
